@@ -6,6 +6,7 @@
   commit was dropped). That the mapped object *is* the rewritten counterpart is C01/C02/C04.
 -/
 import Frrs.Filter
+import Frrs.Proofs.Monotone
 namespace Frrs.C09
 open Frrs
 set_option linter.unusedSimpArgs false
@@ -63,7 +64,7 @@ theorem kept_records (s : FState) (e : CommitEnd) (old : Bytes) (m : Nat)
 /-- a dropped commit with an original id records exactly `(id, none)` — the zero line -/
 theorem dropped_records (s : FState) (e : CommitEnd) (old : Bytes) (ho : s.commitOid = some old) :
     (recordDropped s e).pairs = (old, none) :: s.pairs ∧ (recordDropped s e).commitOid = none := by
-  unfold recordDropped
+  unfold recordDropped aliasDropped recordZeroPair
   simp only [ho]
   split
   · split <;> simp [FState.emit]
@@ -74,7 +75,7 @@ theorem no_oid_no_record (s : FState) (e : CommitEnd) (ho : s.commitOid = none) 
     (recordKept s e).pairs = s.pairs ∧ (recordDropped s e).pairs = s.pairs := by
   constructor
   · cases hm : s.commitMark <;> simp [recordKept, FState.emit, ho, hm]
-  · unfold recordDropped
+  · unfold recordDropped aliasDropped recordZeroPair
     simp only [ho]
     split
     · split <;> simp [FState.emit]
@@ -107,5 +108,23 @@ example : commitMap (fun m => if m == 3 then some b!"aaaa" else none)
 example : (runBytes { path := { paths := [b!"keep"] } }
     b!"feature done\ncommit refs/heads/main\nmark :1\noriginal-oid aa\ndata 0\nM 100644 e69de29bb2d1d6434b8b29ae775ad8c2e48c5391 keep\n\ncommit refs/heads/main\nmark :2\noriginal-oid bb\ndata 0\nfrom :1\nM 100644 e69de29bb2d1d6434b8b29ae775ad8c2e48c5391 drop\n\ndone\n").pairs
     = [(b!"aa", some 1), (b!"bb", none)] := by decide +kernel
+
+/-! ### the maps are append-only logs (for every input, option set and fuel) -/
+
+/-- **a recorded pair is never dropped, changed or reordered**: at every point of a run the pairs recorded so far are a
+    prefix of the pairs the run reports -/
+theorem pairs_never_retracted (o : FOpts) (f : Nat) (s : FState) (inp : Bytes) :
+    s.pairs.reverse <+: (loop o f s inp).pairs := (loop_resExt o f s inp).pairs
+
+/-- … hence the commit-map lines of the commits seen so far are a prefix of the final file -/
+theorem commitMap_prefix (g : Nat → Option Bytes) {a b : List (Bytes × Option Nat)} (h : a <+: b) :
+    commitMap g a <+: commitMap g b := by
+  obtain ⟨t, rfl⟩ := h
+  rw [commitMap_append]
+  exact List.prefix_append _ _
+
+/-- **a recorded ref rename stays recorded** -/
+theorem renames_never_retracted (o : FOpts) (f : Nat) (s : FState) (inp : Bytes) (x : Bytes × Bytes)
+    (hx : x ∈ s.refRenames) : x ∈ (loop o f s inp).refRenames := (loop_resExt o f s inp).ren x hx
 
 end Frrs.C09
